@@ -86,12 +86,15 @@ def table(srcdir="/repo/src"):
             for name, body in functions(strip(open(path).read())):
                 locks = len(re.findall(r"\.lock\(\)", body))
                 atom = len(re.findall(r"\.(fetch_add|fetch_sub|load|store|compare_exchange|swap)\(", body))
+                orders = re.findall(r"Ordering::(\w+)|\b(Relaxed|Release|Acquire|AcqRel|SeqCst)\b", body)
+                orders = [a or b for a, b in orders]
+                fences = len(re.findall(r"\bfence\(", body))
                 if locks + atom:
                     key = rel + "::" + name
                     k2, c = key, 2
                     while k2 in t:
                         k2 = "%s#%d" % (key, c); c += 1
-                    t[k2] = dict(locks=locks, atomics=atom)
+                    t[k2] = dict(locks=locks, atomics=atom, orderings=orders, fences=fences)
     return t
 
 
@@ -138,7 +141,7 @@ def run(prop=None, tier="quick", seed=1):
     for k in sorted(set(cur) | set(base)):
         if cur.get(k) != base.get(k):
             probs.append(dict(kind="atomic-audit", detail=dict(function=k, expected=base.get(k), found=cur.get(k),
-                              meaning="the number of critical sections / atomic operations of this function differs from what the model's step granularity assumes")))
+                              meaning="the critical sections / atomic operations / memory orderings of this function differ from what the model's step granularity and the sequential correspondence assume")))
     return probs[:10], dict(atomic_audit_functions=len(cur))
 
 
